@@ -37,27 +37,47 @@ structure LocPlan where
   divisions : List Nat
   deriving Repr, DecidableEq
 
+/-- `LocSlice.start`: partition of the left bound (`0` for an open start) -/
+def locStart (divs : List Nat) : Option Nat → Nat
+  | some x => partitionOf divs x
+  | none => 0
+
+/-- `LocSlice.stop`: partition of the right bound (the last partition for an open end) -/
+def locStop (divs : List Nat) : Option Nat → Nat
+  | some y => partitionOf divs y
+  | none => divs.length - 2
+
+/-- `LocSlice.istart` -/
+def locIStart (d0 : Nat) : (a b : Option Nat) → Nat
+  | some x, _ => x
+  | none, none => d0
+  | none, some y => min d0 y
+
+/-- `LocSlice.istop` -/
+def locIStop (dl : Nat) : (a b : Option Nat) → Nat
+  | _, some y => y
+  | none, none => dl
+  | some x, none => max dl x
+
+/-- first reported division when several partitions are touched -/
+def locDStart (divs : List Nat) (d0 : Nat) (a b : Option Nat) : Option Nat :=
+  match a with
+  | none => some d0
+  | some _ => (divs[locStart divs a]?).map (max (locIStart d0 a b))
+
+/-- last reported division when several partitions are touched -/
+def locDStop (divs : List Nat) (dl : Nat) (a b : Option Nat) : Option Nat :=
+  match b with
+  | none => some dl
+  | some _ => (divs[locStop divs b + 1]?).map (min (locIStop dl a b))
+
 /-- `LocSlice.start/stop/istart/istop/_divisions` once the first and last division are known -/
 def locSliceCore (divs : List Nat) (d0 dl : Nat) (a b : Option Nat) : Option LocPlan :=
-  let start := match a with | some x => partitionOf divs x | none => 0
-  let stop := match b with | some x => partitionOf divs x | none => divs.length - 2
-  let istart := match a, b with
-    | some x, _ => x
-    | none, none => d0
-    | none, some y => min d0 y
-  let istop := match b, a with
-    | some y, _ => y
-    | none, none => dl
-    | none, some x => max dl x
-  if stop = start then some ⟨start, stop, [istart, istop]⟩ else
-  let dstart := match a with
-    | none => some d0
-    | some _ => (divs[start]?).map (max istart)
-  let dstop := match b with
-    | none => some dl
-    | some _ => (divs[stop + 1]?).map (min istop)
+  let start := locStart divs a
+  let stop := locStop divs b
+  if stop = start then some ⟨start, stop, [locIStart d0 a b, locIStop dl a b]⟩ else
   -- `frame.divisions[start + 1 : stop + 1]` (empty when start > stop)
-  match dstart, dstop with
+  match locDStart divs d0 a b, locDStop divs dl a b with
   | some ds, some de => some ⟨start, stop, ds :: ((divs.drop (start + 1)).take (stop + 1 - (start + 1)) ++ [de])⟩
   | _, _ => none
 
@@ -96,6 +116,16 @@ def partitionsDivs (divs : List Nat) (sel : List Nat) : Option (List Nat) := do
 
 def partitionsParts {α : Type} (parts : List (List α)) (sel : List Nat) : Option (List (List α)) :=
   sel.mapM fun p => parts[p]?
+
+/-- `Concat._divisions` for frames whose division ranges follow one another (`_monotonic_divisions`):
+    drop the last division of every frame but the last -/
+def concatMonoDivs (d1 d2 : List Nat) : List Nat := d1.dropLast ++ d2
+
+/-- `Concat._monotonic_divisions` for two frames with known divisions -/
+def concatMonotonic (d1 d2 : List Nat) : Bool :=
+  match d1.getLast?, d2.head? with
+  | some l, some f => decide (l < f)
+  | _, _ => false
 
 /-- `RepartitionToFewer._divisions` -/
 def toFewerDivs (divs : List Nat) (bs : List Nat) : Option (List Nat) := bs.mapM fun i => divs[i]?
